@@ -244,6 +244,10 @@ impl Property for C03 {
         for (n, t, depth) in queue_cfgs(ctx.tier) {
             cqlab::bfs(ctx, n, t, depth, true, true, true, "queue-tie-order");
         }
+        for (n, t) in [(1usize, 1u64), (2, 3), (4, 5)] {
+            // without merging states (see C01)
+            cqlab::bfs(ctx, n, t, ctx.tier.pick(5, 6), true, false, true, "queue-tie-order");
+        }
         // queue layer, long bursts for one instant: k events scheduled for the current instant
         // (before the first dispatch, or behind an older event of that instant that sits in a
         // calendar bucket), follow-ups scheduled while the burst drains
